@@ -169,12 +169,6 @@ def isSubseq : List String → List String → Bool
   | _ :: _, [] => false
   | a :: as, b :: bs => if a == b then isSubseq as bs else isSubseq (a :: as) bs
 
-/-- remove `lost` from `l` as a subsequence (first matches) -/
-def removeSubseq : List String → List String → List String
-  | l, [] => l
-  | [], _ => []
-  | a :: as, x :: xs => if a == x then removeSubseq as xs else a :: removeSubseq as (x :: xs)
-
 def containsStr (hay needle : String) : Bool := (hay.splitOn needle).length > 1
 
 def containsSub (hay needle : Bytes) : Bool :=
@@ -267,7 +261,7 @@ def handle (toks : List String) (impl : String) : Verdict :=
     let (trace, _) := search 6 []
     let chosen : List Segment × Nat := (trace.map (·.1), (trace.getLast?.map (·.2)).getD 0)
     let modelSegs := chosen.1
-    let lost : List String := modelSegs.flatMap fun s => s.lost.map hex
+    let resumed : Bool := modelSegs.any (·.resumed)
     -- pending callers according to the model: enqueued, not cancelled, no result
     let enq : List Nat := actions.filterMap fun a =>
       match a with
@@ -391,7 +385,6 @@ def handle (toks : List String) (impl : String) : Verdict :=
           b.1.map Spec.Tok.tokenizeLine == want && isList == (names.length ≥ 2)
         if found then none else some rid
     let typedPending := typedReqs.any fun (rid, _) => pendImpl.contains (toString rid)
-    let eventsK3 := !lost.isEmpty && f.events == removeSubseq reported lost
     let oracle : String :=
       if impl == "PANIC" then "fail:panic"
       else if on "C08" && f.closings > 1 then "fail:C08-more-than-one-closing-event"
@@ -413,13 +406,12 @@ def handle (toks : List String) (impl : String) : Verdict :=
         else if on "C13" && honest && typedFramingBad.isSome then s!"fail:C13-list-not-framed-as-one-block-{typedFramingBad.getD 0}"
         else if on "C04" && startsWith f.sv.out body && !(isSubseq f.events reported) then "fail:C04-event-not-reported-by-server"
         else if on "C04" && honest && connectedOk && !f.dropMain && !eventsExact then
-          (if eventsK3 then "fail:C04-events-lost-with-dropped-receive-future" else "fail:C04-events-differ-from-reported")
+          "fail:C04-events-differ-from-reported"
         else if on "C08" && f.faulted && connectedOk && !f.dropMain && !pendImpl.isEmpty then "fail:C08-request-never-resolved"
         else if on "C08" && f.readEnds && connectedOk && !f.dropMain && !(f.droppedSeen && f.evend && f.closedSeen) then
           "fail:C08-not-closed-after-fault"
         else if on "C08" && f.uncleanEof && connectedOk && !f.dropMain && f.cancelled.isEmpty && !(containsStr impl "proto:ueof") then
-          (if !lost.isEmpty then "fail:C08-unclean-end-hidden-by-dropped-receive-future"
-           else "fail:C08-unclean-end-of-stream-not-surfaced")
+          "fail:C08-unclean-end-of-stream-not-surfaced"
         else if on "C08" && connectedOk && !f.dropMain && f.cancelled.isEmpty &&
             (match f.liveReadFault with | some k => !(containsStr impl s!"proto:io{k}") | none => false) then
           "fail:C08-read-error-not-surfaced"
@@ -428,12 +420,11 @@ def handle (toks : List String) (impl : String) : Verdict :=
         else if on "C05" && honest && connectedOk && !f.dropMain && !f.sv.idle then "fail:C05-not-idling-at-quiescence"
         else if on "C01" && honest && connectedOk && !f.dropMain && !pendImpl.isEmpty then "fail:C01-request-never-answered"
         else "ok"
-    let cls := if oracle == "fail:C04-events-lost-with-dropped-receive-future" ||
-        oracle == "fail:C08-unclean-end-hidden-by-dropped-receive-future" then "K3" else "-"
+    let cls := "-"
     let branch :=
       (if password.isSome then "pw-" else "") ++
       (if f.faulted then "fault" else if !honest then "garbage" else "clean") ++
-      (if chosen.2 > 0 then "-race" else "") ++ (if !lost.isEmpty then "-k3" else "") ++
+      (if chosen.2 > 0 then "-race" else "") ++ (if resumed then "-resume" else "") ++
       (if f.dropMain then "-drop" else "") ++ (if !f.cancelled.isEmpty then "-cancel" else "") ++
       (if !artReqs.isEmpty then "-art" else "") ++ (if !typedReqs.isEmpty then "-typed" else "") ++
       s!"-r{min f.results.length 3}-e{min f.events.length 3}"
